@@ -537,6 +537,8 @@ func sweep(bin string, def *checkDef, check, tier string, baseSeed uint64, cfg t
 	var harness []string
 	known := map[string]*Result{}
 	stop := false
+	abandon := false
+	live := make([]*worker, nw)
 	var wg sync.WaitGroup
 	timeout := def.timeout
 	if timeout == 0 {
@@ -544,9 +546,13 @@ func sweep(bin string, def *checkDef, check, tier string, baseSeed uint64, cfg t
 	}
 	for wi := 0; wi < nw; wi++ {
 		wg.Add(1)
+		wi := wi
 		go func() {
 			defer wg.Done()
 			w := startWorker(bin)
+			mu.Lock()
+			live[wi] = w
+			mu.Unlock()
 			defer func() { w.stop() }()
 			for {
 				mu.Lock()
@@ -564,8 +570,17 @@ func sweep(bin string, def *checkDef, check, tier string, baseSeed uint64, cfg t
 				}
 				job := &Job{ID: i, Check: jcheck, Tier: tier, Seed: seedFor(baseSeed, i), Trace: wantSample}
 				r := w.do(job, timeout)
+				mu.Lock()
+				if abandon {
+					mu.Unlock()
+					return // killed on purpose after a violation was found elsewhere
+				}
+				mu.Unlock()
 				if w.dead {
 					w = startWorker(bin)
+					mu.Lock()
+					live[wi] = w
+					mu.Unlock()
 				}
 				mu.Lock()
 				switch {
@@ -653,7 +668,37 @@ func sweep(bin string, def *checkDef, check, tier string, baseSeed uint64, cfg t
 			}
 		}()
 	}
-	wg.Wait()
+	// once a violation is known, jobs still in flight elsewhere are not waited
+	// for longer than a short grace period (a hung system under test would
+	// otherwise hold the verdict back until the watchdog)
+	done := make(chan struct{})
+	go func() { wg.Wait(); close(done) }()
+	for waiting := true; waiting; {
+		select {
+		case <-done:
+			waiting = false
+		case <-time.After(500 * time.Millisecond):
+			mu.Lock()
+			have := firstViol != nil
+			mu.Unlock()
+			if have {
+				select {
+				case <-done:
+				case <-time.After(8 * time.Second):
+					mu.Lock()
+					abandon = true
+					for _, w := range live {
+						if w != nil && !w.dead && w.cmd.Process != nil {
+							_ = w.cmd.Process.Kill()
+						}
+					}
+					mu.Unlock()
+					<-done
+				}
+				waiting = false
+			}
+		}
+	}
 	wall := time.Since(start).Seconds()
 	if len(harness) > 0 {
 		fmt.Fprintf(os.Stderr, "vcheck: harness trouble (exit 2, not a verdict):\n%s\n", strings.Join(harness, "\n"))
